@@ -23,9 +23,10 @@ MODE = P.get("mode", "semantics")  # semantics: plumbing options fixed; plumbing
 PLUMB_E = P.get("plumb_e", [0, 7])
 PLUMB_D = [0, 2]
 NDOCS = P.get("ndocs", 6)
-DOCS = ['{"a": [1, {"a": 1, "b": "x\\u00e9"}], "b c": {"a b": 2}, "k": null}', '[1, 2, {"a": [3]}]', '{"a": ', b'{"a": "\xff"}', '"just a string"', ""]
+DOCS = ['{"a": [1, {"a": 1, "b": "x\\u00e9"}], "b c": {"a b": 2}, "k": null}', '[1, 2, {"a": [3, 1e999, NaN], "b": -Infinity}]', '{"a": ', b'{"a": "\xff"}', '"just a string"', ""]
 QUERIES = ["$.a", "$..a", "$[?@.a]", "$.a[?@.a == 1]", "$[?length(@.a) == 2]", "$['b c']", "", "$[", "$[?count(1) == 1]", "$[?nosuch(@.a)]",
-           "$[9007199254740992]", "$[?@.a == 'x\\u00e9']", "$.a[1].b", "$[?@.a =~ /[/]", "$[?length(@.*) == 1]"]
+           "$[9007199254740992]", "$[?@.a == 'x\\u00e9']", "$.a[1].b", "$[?@.a =~ /[/]", "$[?length(@.*) == 1]",
+           "$[?@.a\nand @.b]", "$.a[?@.a == 1\n or @.b]", "$['b c',\n 'k']"]
 POINTERS = ["", "/a", "/a/0", "/a/1/a", "/b c/a b", "/b%20c/a%20b", "/zz", "/a/9", "/a/-", "a", "/a/1/b", "/k", "/\\u0061"]
 PATCHES = ['[{"op": "add", "path": "/n", "value": 1}]', '[{"op": "remove", "path": "/a/0"}, {"op": "test", "path": "/k", "value": null}]',
            '[{"op": "test", "path": "/k", "value": 1}]', '[{"op": "nope", "path": "/a"}]', '[{"op": "add", "path": "/zz/x", "value": 1}]',
